@@ -147,14 +147,14 @@ PushSortedW(s, e) == [s EXCEPT !.known = InsertSorted(@, e), !.total = IF FixPus
 \* -- what the property says about a state --------------------------------------------------
 DiskBytes(s) == SumLen(s.files)
 OwnFiles(s) == SelectSeq(s.files, LAMBDA f : f.own)
-(* every surviving line of this log: the files, in creation order, hold consecutive ranges  *)
+(* every surviving line of this log: the files that hold events, in creation order, hold     *)
+(* consecutive ranges                                                                       *)
 (* that end at the last accepted event -- a contiguous most-recent suffix, no gap, no       *)
 (* duplicate                                                                                *)
 ContiguousS(s) ==
-  LET o == OwnFiles(s) IN
+  LET o == SelectSeq(OwnFiles(s), LAMBDA f : f.first <= f.last) IN     \* files holding at least one event line
   /\ \A i \in 1..(Len(o) - 1) : o[i].last + 1 = o[i + 1].first
   /\ (o # <<>> => o[Len(o)].last = s.seq)
-  /\ \A i \in 1..Len(o) : o[i].first <= o[i].last + 1
 PerFileS(s) == \A i \in 1..Len(s.files) : s.files[i].own => (s.files[i].len <= s.mw \/ s.files[i].lines <= 1)
 BookkeepingS(s) ==
   /\ s.total = SumLen(s.known)
